@@ -249,7 +249,9 @@ class guard:
 
     def __enter__(self):
         self.old = signal.signal(signal.SIGVTALRM, _alarm)
-        signal.setitimer(signal.ITIMER_VIRTUAL, CASE_TIMEOUT)
+        # (repeating: should the code under test swallow the exception -
+        # a broad except inside a loop - it is raised again a second later)
+        signal.setitimer(signal.ITIMER_VIRTUAL, CASE_TIMEOUT, 1.0)
 
     def __exit__(self, *exc):
         signal.setitimer(signal.ITIMER_VIRTUAL, 0)
@@ -1120,16 +1122,20 @@ def put_invals(val, k):
 def run_inval(case, v):
     spec, n = case['spec'], case['n']
     model = M.Model(RandomSource(v))
-    with guard():
-        exp, finite = model_eval(inval_model_spec(spec), n, model)
-        exp = [put_invals(val, k) for k, val in enumerate(exp)]
-        s = stm.stream(build(spec))
-        got = []
-        try:
-            for k in range(n + 1):
-                got.append(s.next(INVAL0 + k))
-        except stm.StopStream:
-            pass
+    try:
+        with guard():
+            exp, finite = model_eval(inval_model_spec(spec), n, model)
+            exp = [put_invals(val, k) for k, val in enumerate(exp)]
+            s = stm.stream(build(spec))
+            got = []
+            try:
+                for k in range(n + 1):
+                    got.append(s.next(INVAL0 + k))
+            except stm.StopStream:
+                pass
+    except Hang:
+        v.fail('no_progress', f'no result within {CASE_TIMEOUT}s of CPU time')
+        return {'nontrivial': False, 'labels': []}
     if finite:
         v.check(len(got) == len(exp), 'inval_length',
                 lambda: f'next(value): {len(got)} values {short(got)}, '
